@@ -18,6 +18,7 @@ import (
 type PropConfig struct {
 	ID          string   `json:"id"`
 	Packages    []string `json:"packages"`
+	RepoSubdir  string   `json:"repo_subdir"`
 	Level       string   `json:"level"`
 	Claim       string   `json:"claim"`
 	NotDecided  []string `json:"not_decided"`
@@ -114,7 +115,7 @@ func checkMain(args []string) {
 	if thorough {
 		timeout = 60
 	}
-	prog, err := LoadProgram(*repo, cfg.Packages, filepath.Join(*verif, "contracts", "extern"))
+	prog, err := LoadProgram(filepath.Join(*repo, cfg.RepoSubdir), cfg.Packages, filepath.Join(*verif, "contracts", "extern"))
 	violations := 0
 	replayDir := filepath.Join(*verif, "replays", prop)
 	if *evDir != "" {
@@ -296,6 +297,13 @@ func checkMain(args []string) {
 	for _, r := range results {
 		for _, f := range r.Fatal {
 			report(r.Name+"#generate", "obligations could not be generated: "+f, map[string]any{"function": r.Name})
+		}
+	}
+	// a contract (also a trusted one) whose function does not exist is out of date: it would silently not apply
+	for _, name := range prog.contracts.Order {
+		c := prog.contracts.Funcs[name]
+		if (c.Kind == "func" || c.Kind == "extern") && prog.contracts.pkgOf[name] != nil && prog.funcs[name] == nil && prog.libFunc(name) == nil {
+			report("contracts#unresolved#"+sanitize(name), "the contract names a function that does not exist in the loaded packages (contract out of date): "+name, map[string]any{"contract": name, "file": c.File})
 		}
 	}
 	for _, e := range prog.contracts.Errors {
